@@ -8,7 +8,7 @@ from rexverif.common import CaseResult
 ID = "C14"
 TIERS = {
     "quick": dict(examples=3200, shards=16, timeout_s=1800, shrink_s=120),
-    "thorough": dict(examples=40000, shards=16, timeout_s=7200, shrink_s=300),
+    "thorough": dict(examples=300000, shards=16, timeout_s=7200, shrink_s=300),
 }
 RULE = (
     "Hypothesis draws 1-3 ragged episodes (independent raw-graph generator: 2-4 nodes, forward/back connections, per-node "
